@@ -1444,6 +1444,8 @@ for (A, f, bf, big) in (("ClonedI", "iter/cloned.rs", "iter/buffered/cloned_buff
              recv={"self.iter": "Iter"}),
         dict(ns="Buf" + A, file=bf, impl=r"BufferedChunk<T> for %s" % big, fns=["chunk_size", "pull"], self_ty="AdaptBufSelfP",
              params={"iter": "AdaptSelfP"}, recv={"self.chunk": "BufIter", "iter": A}, mutable=["pull"]),
+        dict(ns="BufferedIter" + A, file="iter/buffered/buffered_iter.rs", impl=r"impl<'a, T, B> BufferedIter", fns=["next"], self_ty="BufferedIterSelfPA",
+             recv={"self.atomic_iter": A, "self.buffered_iter": "Buf" + A}, mutable=["next"]),
     ]
 P_OUT = os.path.join(os.path.dirname(OUT), "ProtoIter.lean")
 
